@@ -838,6 +838,7 @@ static int wait_common(int timeout_ms, Probe probe, Setup block_setup) {
   }
   int64_t deadline = timeout_ms < 0 ? -1 : g_now + (int64_t)timeout_ms * 1000000;
   bool eintr_done = false;
+  if (++g_steps > g_step_cap) stepcap();
   for (;;) {
     HookResult hr;
     if (hook_owner) { NoSched ns; hr = (*g_hook)(g_wait_calls); }
